@@ -1,8 +1,154 @@
 package main
 
-import "bufio"
+import (
+	"bufio"
+	"context"
+	"encoding/json"
+	"fmt"
+	"time"
+
+	"github.com/getlantern/bytemap"
+	"github.com/getlantern/zenodb/core"
+	"github.com/getlantern/zenodb/expr"
+)
+
+type sortRow struct {
+	TS int `json:"ts"`
+	D  int `json:"d"`
+	F  int `json:"f"`
+	G  int `json:"g"`
+}
+
+type sortKey struct {
+	K    string `json:"k"`
+	Desc bool   `json:"desc"`
+}
+
+type sortCaseT struct {
+	Rows []sortRow `json:"rows"`
+	Keys []sortKey `json:"keys"`
+	N    int       `json:"n"`
+	M    int       `json:"m"`
+	Exp  [][]int   `json:"exp"`
+}
+
+var dimNames = []string{"", "x", "y"}
+
+// flatSource feeds fixed flat rows into core.Sort / Offset / Limit.
+type flatSource struct {
+	fields core.Fields
+	rows   []*core.FlatRow
+}
+
+func (s *flatSource) GetGroupBy() []core.GroupBy   { return nil }
+func (s *flatSource) GetResolution() time.Duration { return time.Second }
+func (s *flatSource) GetAsOf() time.Time           { return time.Time{} }
+func (s *flatSource) GetUntil() time.Time          { return time.Time{} }
+func (s *flatSource) String() string               { return "rows" }
+func (s *flatSource) Iterate(ctx context.Context, onFields core.OnFields, onRow core.OnFlatRow) (interface{}, error) {
+	if err := onFields(s.fields); err != nil {
+		return nil, err
+	}
+	for _, r := range s.rows {
+		more, err := onRow(r)
+		if err != nil || !more {
+			return nil, err
+		}
+	}
+	return nil, nil
+}
 
 func sortCase(c *Case, out *bufio.Writer, st *stats) {
-	// filled in by the C09 check
 	st.Kinds["sort"]++
+	var sc sortCaseT
+	if err := json.Unmarshal(c.Raw, &sc); err != nil {
+		panic(err)
+	}
+	fields := core.Fields{core.NewField("f", expr.FIELD("f")), core.NewField("g", expr.FIELD("g"))}
+	src := &flatSource{fields: fields}
+	for _, r := range sc.Rows {
+		dims := map[string]interface{}{}
+		if r.D > 0 {
+			dims["d"] = dimNames[r.D]
+		}
+		row := &core.FlatRow{TS: int64(r.TS) * int64(time.Second), Key: bytemap.New(dims), Values: []float64{float64(r.F), float64(r.G)}}
+		row.SetFields(fields)
+		src.rows = append(src.rows, row)
+	}
+	var flat core.FlatRowSource = src
+	if len(sc.Keys) > 0 {
+		var by []core.OrderBy
+		for _, k := range sc.Keys {
+			by = append(by, core.NewOrderBy(k.K, k.Desc))
+		}
+		flat = core.Sort(flat, by...)
+	}
+	if sc.M > 0 {
+		flat = core.Offset(flat, sc.M)
+	}
+	if sc.N > 0 {
+		flat = core.Limit(flat, sc.N)
+	}
+	var got []*core.FlatRow
+	_, err := flat.Iterate(context.Background(), core.FieldsIgnored, func(r *core.FlatRow) (bool, error) {
+		got = append(got, r)
+		return true, nil
+	})
+	st.Evaluations++
+	if err != nil {
+		fail(out, st, c, "error: "+err.Error())
+		return
+	}
+	if len(got) != len(sc.Exp) {
+		fail(out, st, c, fmt.Sprintf("returned %d rows, expected %d", len(got), len(sc.Exp)))
+		return
+	}
+	// every returned row is one of the input rows (each used at most once)
+	used := make([]bool, len(src.rows))
+	for _, g := range got {
+		found := false
+		for i, r := range src.rows {
+			if !used[i] && r == g {
+				used[i], found = true, true
+				break
+			}
+		}
+		if !found {
+			fail(out, st, c, "returned a row that is not (or no longer) in the input")
+			return
+		}
+	}
+	if len(sc.Keys) == 0 {
+		return // unordered: any rows of the input will do
+	}
+	// position by position the key vector is the one of the ordered result
+	for i, g := range got {
+		for j, k := range sc.Keys {
+			var v int
+			switch k.K {
+			case "_time":
+				v = int(g.TS / int64(time.Second))
+			case "d":
+				v = 0
+				if d := g.Key.Get("d"); d != nil {
+					for n, name := range dimNames {
+						if name == d.(string) {
+							v = n
+						}
+					}
+				}
+			case "f":
+				v = int(g.Values[0])
+			case "g":
+				v = int(g.Values[1])
+			}
+			if k.Desc {
+				v = -v
+			}
+			if v != sc.Exp[i][j] {
+				fail(out, st, c, fmt.Sprintf("row %d of the result has key %s = %d, the ordered result has %d there", i, k.K, v, sc.Exp[i][j]))
+				return
+			}
+		}
+	}
 }
